@@ -133,17 +133,17 @@ type Sched struct {
 	tseq    int
 	now     time.Duration
 
-	finished chan struct{}
-	Failure  string // deadlock / horizon / panic description ("" if the run completed)
-	FailKind string
-	Trace    []string // compact operation trace (thread:op@object)
-	trace    bool
-	shared   map[string]bool // object ids known to be touched by more than one thread
-	touched  map[string]map[string]bool
-	allSites bool
+	finished    chan struct{}
+	Failure     string // deadlock / horizon / panic description ("" if the run completed)
+	FailKind    string
+	Trace       []string // compact operation trace (thread:op@object)
+	trace       bool
+	shared      map[string]bool // object ids known to be touched by more than one thread
+	touched     map[string]map[string]bool
+	allSites    bool
 	TimedOutVia []string // timers that enabled a blocked system
-	aborted  bool
-	objSum   uint64 // sum of the objects' contributions to the state key (kept incrementally)
+	aborted     bool
+	objSum      uint64 // sum of the objects' contributions to the state key (kept incrementally)
 }
 
 var (
